@@ -66,7 +66,12 @@ def cutter(rng, mode):
     return cuts
 
 
-def scenario(ctx, ver, want, *, extras, cutmode, seed, stale_first, v2_split):
+RICH_CAPS = bytes([0xB5, 5, 0x16, 0x02, 1, 3, 0x1F, 0x02, 1, 2, 0x42, 0x00, 1, 1, 0x14, 0x02, 1, 0, 0x10, 0x02, 1, 1])   # energy, humidity, breeze away, modes, custom fan speeds
+ENERGY = bytes([0xC1, 0x21, 0x01, 0x44, 0, 0, 0x12, 0x34, 0, 0, 0, 0, 0, 0, 0, 0x56, 0, 7, 0x89, 0])
+HUMID = bytes([0xC1, 0x21, 0x01, 0x45, 47, 0, 0, 0])
+
+
+def scenario(ctx, ver, want, *, extras, cutmode, seed, stale_first, v2_split, rich=False):
     """One A-applies / B-refreshes scenario.  Returns the vector for TLC."""
     from msmart.device import AirConditioner as AC
     import random
@@ -77,7 +82,8 @@ def scenario(ctx, ver, want, *, extras, cutmode, seed, stale_first, v2_split):
     init = rand_state(rng)
     init.pop("beep")
     ac = Chatty(state=dict(init, display=rng.random() < 0.5, indoor=rng.randrange(40, 130), outdoor=rng.randrange(40, 130)),
-                style=rng.choice(["crc", "sum"]), state_len=rng.choice([22, 23, 24, 24, 30]))
+                style=rng.choice(["crc", "sum"]), state_len=rng.choice([22, 23, 24, 24, 30]),
+                **(dict(caps_pages=[RICH_CAPS], energy=ENERGY, humidity=HUMID, props={0x42: b"\x01"}) if rich else {}))
     tok, key = bytes(rng.randrange(256) for _ in range(64)), bytes(rng.randrange(256) for _ in range(32))
     devid = rng.choice([0, 1, 2 ** 48 - 1, rng.getrandbits(48), rng.getrandbits(48)])
     dev = landev.LanDevice(loop, net, ac, version=ver, token=tok, key=key, seed=seed)
@@ -96,7 +102,7 @@ def scenario(ctx, ver, want, *, extras, cutmode, seed, stale_first, v2_split):
             loop.call_soon(tr.feed, s)
     dev.respond = respond
     vec = {"ver": ver, "want": want, "raised": "", "apply_rx": [], "tx": [], "online": False, "extras": [list(extras[0]), list(extras[1])],
-           "cutmode": cutmode, "stale_first": stale_first, "v2_split": v2_split}
+           "cutmode": cutmode, "stale_first": stale_first, "v2_split": v2_split, "rich": rich}
 
     async def go():
         a = AC(ip="10.0.0.5", port=6444, device_id=devid)
@@ -128,6 +134,8 @@ def scenario(ctx, ver, want, *, extras, cutmode, seed, stale_first, v2_split):
             vec["attrs_a"] = observe(a)
             if ver == 3:
                 await b.authenticate(tok.hex(), key.hex())
+            if rich:
+                await b.get_capabilities()      # the refresh below then also queries energy, humidity and properties
             n1 = len(ac.tx_log)
             await b.refresh()
             vec["tx"] = [B(f) for f in ac.tx_log[n1:]]
@@ -234,7 +242,7 @@ def plan(ctx, k, rng):
     nb, na = rng.choice([0, 0, 1, 2]), rng.choice([0, 0, 1, 2])
     extras = (tuple(rng.choice(EXTRAS) for _ in range(nb)), tuple(rng.choice(EXTRAS) for _ in range(na)))
     cutmode = rng.choice(["none", "one", "one", "few", "few", "bytewise"]) if ver == 3 else "none"
-    return dict(ver=ver, extras=extras, cutmode=cutmode, stale_first=rng.random() < 0.35, v2_split=False)
+    return dict(ver=ver, extras=extras, cutmode=cutmode, stale_first=rng.random() < 0.35, v2_split=False, rich=rng.random() < 0.3)
 
 
 def run(ctx: Ctx) -> int:
@@ -291,7 +299,7 @@ def run(ctx: Ctx) -> int:
             raise MachineryError(f"Trace_C01: {clause} (vector {i})")
         ctx.violation(f"V{v['ver']} extras={v['extras']} cuts={v['cutmode']} stale_first={v['stale_first']} v2_split={v['v2_split']}", clause,
                       {"ver": v["ver"], "want": v["want"], "extras": v["extras"], "cutmode": v["cutmode"], "stale_first": v["stale_first"], "v2_split": v["v2_split"],
-                       "clause": clause, "seed_index": i, "v2_no_reassembly": bool(v["ver"] == 2 and v["v2_split"])})
+                       "clause": clause, "seed_index": i, "rich": v.get("rich", False), "v2_no_reassembly": bool(v["ver"] == 2 and v["v2_split"])})
     ctx.sample({"ver": vectors[0]["ver"], "want": vectors[0]["want"], "extras": vectors[0]["extras"], "frame_0x40": bytes(vectors[0]["apply_rx"][0]).hex() if vectors[0]["apply_rx"] else ""})
     return ctx.finish(
         rule="every value of every settable field (others seeded-random), setpoints x modes, random states, display via toggle; V2 and V3 alternating; "
@@ -308,7 +316,7 @@ def replay(ctx: Ctx, path: str) -> int:
         ctx.notes.append("V2 stream cases are re-run by the full check (v2_stream_traces); this replay only re-validates the recorded stream")
         return ctx.finish(rule="replay of one recorded V2 stream case (see note)")
     v = scenario(ctx, c["ver"], c["want"], extras=(tuple(c["extras"][0]), tuple(c["extras"][1])), cutmode=c["cutmode"], seed=ctx.seed,
-                 stale_first=c["stale_first"], v2_split=c["v2_split"])
+                 stale_first=c["stale_first"], v2_split=c["v2_split"], rich=c.get("rich", False))
     for i, clause in ctx.validate_vectors("Trace_C01", [v]):
         ctx.violation("replayed scenario", clause, c)
     return ctx.finish(rule="replay of one recorded scenario")
